@@ -27,6 +27,14 @@ GridS == [ kf |-> {<<1000000000, 1>>}, kb |-> {<<1000, 1>>}, k |-> {<<2, 1>>, <<
            r |-> {<<1, 10000>>, <<1, 500>>}, p |-> {<<1, 2000>>}, fr |-> {<<1, 1000>>},
            fp |-> {<<1, 2000>>}, fv |-> {<<2, 1>>}, n |-> {<<1, 1>>, <<2, 1>>} ]
 TimesS == {<<1, 2000>>, <<1, 1>>, <<1000, 1>>}
+(* excess slice: one reactant in huge excess over the other (solvent against a nanomolar solute, *)
+(* pseudo-first-order conditions), ratios 5e10 and 2e12                                          *)
+GridX == [ kf |-> {<<1, 100>>}, kb |-> {<<1, 10>>}, k |-> {<<1, 1>>},
+           prod |-> {<<0, 1>>, <<1, 1000000000>>}, major |-> {<<554, 10>>, <<2000, 1>>}, minor |-> {<<1, 1000000000>>},
+           initial_C |-> {<<1, 1000000000>>}, t0 |-> {<<0, 1>>},
+           r |-> {<<1, 1000000000>>}, p |-> {<<0, 1>>}, fr |-> {<<554, 10>>}, fp |-> {<<1, 1000000000>>},
+           fv |-> {<<1, 10>>}, n |-> {<<1, 1>>} ]
+TimesX == {<<1, 2>>, <<3, 1>>}
 TimesQ == {<<0, 1>>, <<1, 3>>, <<2, 1>>}
 TimesT == {<<0, 1>>, <<1, 3>>, <<2, 1>>, <<5, 1>>}
 B_All == AllBackends
